@@ -421,9 +421,10 @@ class SqlImpl(TableImpl):
             # contains an aggregate function, so keep one of its columns.
             if query.summarized and not query.group_by and not any(uid in needed for uid in query.summarize_cols):
                 needed.extend(query.summarize_cols[:1])
-            if not any(uid in sqa_expr for uid in needed):
-                # We cannot select zero columns from a subquery. This happens when the
-                # user only 0-ary functions after the subquery, e.g. `count`.
+            if not any(uid in sqa_expr and uid in original_select for uid in needed):
+                # We cannot select zero columns from a subquery (nor from the SELECT
+                # around it). This happens when the user only 0-ary functions after the
+                # subquery, e.g. `count`.
                 needed.append(original_select[0])
 
             # resolve potential column name collisions in the subquery
